@@ -949,7 +949,9 @@ def solve_sylvester_diagonal(
             array_eigs_a = np.array(sympy.sympify(eigs_A.tolist()), dtype=object)
             array_eigs_b = np.array(sympy.sympify(eigs_B.tolist()), dtype=object)
             energy_denominators = sympy.Matrix(
-                np.resize(1 / (array_eigs_a.reshape(-1, 1) - array_eigs_b), Y.shape)
+                np.broadcast_to(
+                    1 / (array_eigs_a.reshape(-1, 1) - array_eigs_b), Y.shape
+                )
             ).subs(sympy.zoo, sympy.S.Zero)  # Take care of diagonal elements
             return energy_denominators.multiply_elementwise(Y)
         raise TypeError(f"Unsupported rhs type: {type(Y)}")
